@@ -96,6 +96,8 @@ def compare_line(decls, exp, lr, timetab, brackets, check_stamps=True):
     real = {m["name"]: m for m in lr["metrics"]}
     for d in decls:
         name = d["name"]
+        if d["kind"] == "histogram":
+            continue                      # only there to fault (++ on a histogram); its buckets are C21's business
         if name not in real:
             bad.append("metric %s missing from the VM" % name)
             continue
